@@ -20,6 +20,7 @@ import lib
 from translate import formatre as tr_formatre
 from translate import formatattrs as tr_formatattrs
 from translate import formataccept as tr_formataccept
+from translate import formatloops as tr_formatloops
 
 PROP = "C17"
 
@@ -296,6 +297,7 @@ PERR_KINDS = [
     ("unexpected '{' in field name", "PUnexpectedOpen"),
 ]
 FERR_KINDS = [
+    ("cannot switch from", "FMix"),
     ("Too few arguments", "FTooFew"),
     ("Numbered argument(s)", "FUnusedNumbered"),
     ("Numbered argument", "FOutOfRange"),
@@ -629,7 +631,8 @@ def safe_args(t, a):
 
 def gen_files():
     return {"FormatRe.v": tr_formatre.translate(str(lib.REPO)), "FormatAttrs.v": tr_formatattrs.translate(),
-            "FormatAccept.v": tr_formataccept.translate(str(lib.REPO))}
+            "FormatAccept.v": tr_formataccept.translate(str(lib.REPO)),
+            "FormatLoops.v": tr_formatloops.translate(str(lib.REPO))}
 
 
 def load_corpus():
@@ -1280,7 +1283,7 @@ def run(tier: str, replay: str | None = None):
     proof = None
     try:
         gen = gen_files()
-    except (tr_formatre.TranslateError, tr_formataccept.TranslateError) as ex:
+    except (tr_formatre.TranslateError, tr_formataccept.TranslateError, tr_formatloops.TranslateError) as ex:
         broken_translation = str(ex)
         gen = None
     if gen is not None:
